@@ -513,6 +513,18 @@ def d4(fb, chk, tag):
                                 seen[kind].append(not (reach & targets))
                 ok1 = ok1 or (bool(seen["size"]) and all(seen["size"]))
                 ok2 = ok2 or (bool(seen["handle"]) and all(seen["handle"]))
+            # an invalid region fails the call: from the edge on which an element was found invalid neither the append of a
+            # LATER element nor the send is reachable (skipping the bad region would send a table with fewer regions)
+            sends_ = [b_ for b_, _t, _a, _g in ss]
+            for d_, blk in enumerate(f.blocks):
+                if blk["cleanup"] or blk["term"]["k"] != "switch":
+                    continue
+                for sx in m.cfg.succ[d_]:
+                    ea = m.edge_atoms(d_, sx)
+                    bad_edge = (has_cmp(ea, "Eq", "memory_size", rconst=0, sym=m.sym) or has_cmp(ea, "Lt", "mmap_handle", rconst=0, sym=m.sym)) and \
+                        any("regions" in show(a_[2]) + show(a_[3]) for a_ in ea if a_[0] == "cmp")
+                    if bad_edge and ((m.cfg.reach(sx) | {sx}) & (set(sends_) | {bb})):
+                        ok1 = False
             chk.check(ok1 and ok2, "D4", tag + "set_mem_table:region", "each appended region has memory_size != 0 and mmap_handle >= 0",
                       "a region is appended without the must-facts memory_size != 0 (%s) and mmap_handle >= 0 (%s)" % (ok1, ok2),
                       f.loc(t["line"]))
